@@ -1,3 +1,4 @@
+import NucleoVerif.Gen.Utf32
 /-! Model of `matcher/src/utf32_str.rs` and `chars::graphemes`: conversion of a string into the
 matcher's string type, and the accessors.
 
@@ -35,6 +36,24 @@ def U32.len (u : U32) : Nat := u.content.length
 def U32.get (u : U32) (i : Nat) : Option Nat := u.content[i]?
 def U32.slice (u : U32) (a b : Nat) : U32 := ⟨u.rep, (u.content.drop a).take (b - a)⟩
 def U32.chars (u : U32) : List Nat := u.content
+
+/-- one bound of a `RangeBounds` value -/
+inductive Bnd | incl (x : Nat) | excl (x : Nat) | unb
+deriving DecidableEq, Repr
+
+/-- the first position a start bound admits / the first position an end bound excludes (`std::ops::RangeBounds`) -/
+def Bnd.startOf : Bnd → Nat
+  | .incl x => x | .excl x => x + 1 | .unb => 0
+def Bnd.endOf (n : Nat) : Bnd → Nat
+  | .incl x => x + 1 | .excl x => x | .unb => n
+
+/-- `slice` / `slice_u32` of either string type as the source writes it (`Gen.SliceBounds`, regenerated from the four function
+    bodies): the bounds become `start..end` by the function's own arms, the result is that range of the content -/
+def Gen.SliceBounds.start (sb : Gen.SliceBounds) (n : Nat) : Bnd → Nat
+  | .incl x => sb.startIncl x | .excl x => sb.startExcl x | .unb => sb.startUnb n
+def Gen.SliceBounds.stop (sb : Gen.SliceBounds) (n : Nat) : Bnd → Nat
+  | .incl x => sb.endIncl x n | .excl x => sb.endExcl x n | .unb => sb.endUnb n
+def U32.sliceVia (sb : Gen.SliceBounds) (u : U32) (lo hi : Bnd) : U32 := u.slice (sb.start u.len lo) (sb.stop u.len hi)
 
 /-- cut `s` into pieces of the given lengths -/
 def cutClusters : List Nat → List Nat → List (List Nat)
